@@ -23,6 +23,7 @@ import Kvass.Proofs.CoordQuiet
 import Kvass.Proofs.CoordNeed
 import Kvass.Proofs.CoordGcWhole
 import Kvass.Proofs.LoopStable
+import Kvass.Proofs.LoopRepair
 
 namespace Kvass.Props.C03
 open Kvass Kvass.Coord Kvass.Spec
@@ -367,5 +368,13 @@ theorem C03_further_cycles (swr : Swr) (env : Loop.Env) (hoff : env.opt.idleOn =
     (hidle : ∀ sh ∈ w.running, sh.sc.status = [] → sh.sc.idleAt.isSome = true) :
     Loop.Unchanged w (Loop.cycles swr env w scs) :=
   Loop.loop_stable_n swr env hoff scs w hq hrep hidle
+
+/-- **exactly one shard in normal state**: a whole cycle never creates a second normal-state copy —
+    if after `gcTargets` at most one in-sync shard holds `h` in normal state (which `gcTargets`
+    itself establishes for a duplicate, `C03_gc_duplicate_resolved`), the same is true of the final
+    plan, for every schedule -/
+theorem C03_unique_normal (swr : Swr) (sc : Sched) (inp : Input) (h : Hash) (hne : stopsEarly inp = false)
+    (h0 : OneNormalAt h (startCS inp)) : OneNormalAt h (cycle swr sc inp).cs :=
+  cycle_oneNormal swr sc inp h hne h0
 
 end Kvass.Props.C03
